@@ -44,4 +44,38 @@ structure IsCondensation (V : List Nat) (adj : Adj) (comps cadj : List (List Nat
   edges : ∀ i j, i < comps.length → j < comps.length →
     (j ∈ cadj.getD i [] ↔ i ≠ j ∧ ∃ u ∈ comps.getD i [], ∃ w ∈ adj u, w ∈ comps.getD j [])
 
+/-! ### The clauses common to both readings of "neighbours outside the node list" -/
+
+/-- keep the members of the node list -/
+def restrict (nodes : List Nat) (comps : List (List Nat)) : List (List Nat) :=
+  comps.map fun c => c.filter fun v => nodes.contains v
+
+/-- what `chkSccOpen` decides -/
+structure SccOpenOK (nodes : List Nat) (adj : Adj) (comps : List (List Nat)) : Prop where
+  nodup    : comps.flatten.Nodup
+  nonempty : ∀ c ∈ comps, c ≠ []
+  cover    : ∀ v ∈ nodes, v ∈ comps.flatten
+  explored : ∀ v ∈ comps.flatten, ∃ s ∈ nodes, Reach adj s v
+  strong   : ∀ c ∈ comps, ∀ u ∈ c, ∀ v ∈ c, u ∈ nodes → v ∈ nodes → Reach adj u v
+  complete : ∀ u ∈ nodes, ∀ v ∈ nodes, Mutual (adjIn nodes adj) u v → compIdx comps u = compIdx comps v
+  order    : SinksFirst (adjIn nodes adj) (restrict nodes comps)
+
+/-- what `chkTopoOpen` decides -/
+structure TopoOpenOK (nodes : List Nat) (adj : Adj) (order : List Nat) : Prop where
+  nodup    : order.Nodup
+  cover    : ∀ v ∈ nodes, v ∈ order
+  explored : ∀ v ∈ order, ∃ s ∈ nodes, Reach adj s v
+  forward  : ∀ u ∈ nodes, ∀ w ∈ adj u, w ∈ nodes → order.idxOf u < order.idxOf w
+
+/-- what `chkCondOpen` decides -/
+structure CondOpenOK (nodes : List Nat) (adj : Adj) (comps cadj : List (List Nat)) : Prop where
+  scc     : SccOpenOK nodes adj comps
+  len     : cadj.length = comps.length
+  range   : ∀ l ∈ cadj, ∀ j ∈ l, j < comps.length
+  sound   : ∀ i, i < comps.length → ∀ j ∈ cadjFn cadj i,
+              i ≠ j ∧ ∃ u ∈ comps.getD i [], ∃ w ∈ adj u, w ∈ comps.getD j []
+  listed  : ∀ u ∈ nodes, ∀ w ∈ adjIn nodes adj u, ∃ i j, compIdx comps u = some i ∧ compIdx comps w = some j ∧
+              (i = j ∨ j ∈ cadjFn cadj i)
+  acyclic : ¬ Cyclic (List.range comps.length) (cadjFn cadj)
+
 end Solvor.Graph
